@@ -144,4 +144,12 @@ package identity
 //@ func (*Key).PGPEntity
 //@   props C07 C08
 //@   nopanic
+//@   maypanic
+//@   modifies nothing
+//@   opt trusted_frame
 //@   requires k != nil && k.public != nil
+
+// Identities handed out by the resolvers have been validated: their keys are well formed.
+//@ func Interface.ValidKeysAtTime
+//@   modifies nothing
+//@   ensures forall k int :: { result[k] } 0 <= k && k < len(result) ==> result[k] != nil && result[k].public != nil
